@@ -640,7 +640,10 @@ def h_https_rt(X, nparams, vlen):
             X.check(_data_eq(it[pos + 4:pos + 4 + len(val)], val), "C25/https/param-value-wire", "SvcParam value differs")
             pos += 4 + len(val)
         X.check(pos == len(it), "C25/https/length-wire", "trailing octets")
-        r2 = https_records.unpack(p)
+        try:
+            r2 = https_records.unpack(p)
+        except struct.error as e:
+            X.fail("C25/https/unpack-rejects-own-output", f"unpack(pack(r)) raised {e!r}")
         X.check(r2.priority == prio, "C25/https/roundtrip/priority", "priority differs after round trip")
         X.check(r2.target_name == target, "C25/https/roundtrip/target", f"target {r2.target_name!r} != {target!r}")
         X.check(list(r2.params) == list(params), "C25/https/roundtrip/param-keys", f"{list(r2.params)} != {list(params)}")
